@@ -26,3 +26,23 @@ package keystore
 //@ func decryptKeyV1
 //@   requires keyProtected != nil
 //@   nopanic[C20]
+
+// ---- key use as an effect (C18) ------------------------------------------------------------------
+// Ghost resource `signs`: written by every entry point that produces a signature with a key held
+// by the key store (all key use funnels through these six methods). The effect propagates up the
+// call graph through the inferred frames; rpc.isProtectedMethodName must hold for the name of
+// every RPC method that can reach it (contract in /repo/rpc/verif_contracts.go).
+//@ ghost signs Bool
+
+//@ func KeyStore.SignHash
+//@   assigns signs, inferred
+//@ func KeyStore.SignHashAllowed
+//@   assigns signs, inferred
+//@ func KeyStore.SignHashOK
+//@   assigns signs, inferred
+//@ func KeyStore.SignTx
+//@   assigns signs, inferred
+//@ func KeyStore.SignHashWithPassphrase
+//@   assigns signs, inferred
+//@ func KeyStore.SignTxWithPassphrase
+//@   assigns signs, inferred
